@@ -118,6 +118,8 @@ class PathEnum:
                 return ("const", ())
             if v.get("k") == "static":
                 return ("static", v["path"])
+            if v.get("k") == "enum":
+                return ("agg", v["adt"], v["variant"], ())
             return ("unknown", "const:" + str(v.get("k")))
         return ("unknown", k)
 
